@@ -36,7 +36,7 @@ ASSUMPTIONS = [
     "gaussian-backend MeasureFock/MeasureThreshold do not update the state (documented): excluded",
 ]
 REQUIRED_LABELS = {"all": ["backend:gaussian", "backend:bosonic", "backend:fock", "target_not_first", "fock_pure", "fock_mixed",
-                           "kind:gate", "kind:channel", "kind:prep", "kind:measure", "kind:del"]}
+                           "kind:gate", "kind:channel", "kind:prep", "kind:measure", "kind:del", "measure_sampled", "non_involutive_target_order"]}
 
 
 def selftest():
@@ -181,15 +181,21 @@ def ket_terms(draw, n, pmax):
 
 F_EXACT = ["Rgate", "Kgate", "BSgate", "MZgate", "CKgate", "LossChannel", "Fouriergate", "sMZgate"]
 F_ACTIVE = ["Dgate", "Sgate", "S2gate", "Xgate", "Zgate", "Pgate", "CXgate", "CZgate", "Vgate"]
-F_PREPS = ["Vacuum", "Fock", "Coherent", "Squeezed", "Thermal", "Catstate", "DisplacedSqueezed", "Ket1", "Ket2", "DM1"]
+F_PREPS = ["Vacuum", "Fock", "Coherent", "Squeezed", "Thermal", "Catstate", "DisplacedSqueezed", "Ket1", "Ket2", "DM1", "KetN", "DMN"]
 
 
 @st.composite
 def fock_case(draw):
     n = draw(st.integers(2, 3))
-    kind = draw(st.sampled_from(["gate", "gate", "active", "prep", "prep", "measure", "del", "channel"]))
+    kind = draw(st.sampled_from(["gate", "gate", "active", "prep", "prep", "prep_all", "measure", "measure", "del", "channel"]))
+    if kind == "prep_all":
+        n = draw(st.integers(3, 4))
+    if kind == "measure":
+        n = draw(st.sampled_from([3, 3, 3, 2]))
     if kind == "active":
         D, pmax = (8 if n == 2 else 7), 2
+    elif n == 4:
+        D, pmax = 4, 3
     else:
         D = draw(st.integers(4, 5))
         pmax = D - 1 if n == 2 else min(D - 1, 3)
@@ -204,8 +210,9 @@ def fock_case(draw):
     elif kind == "active":
         op = draw(gen.op_spec(n, F_ACTIVE, "fock"))
         op[1] = [p * 0.5 if isinstance(p, float) and op[0] in ("Dgate", "Sgate", "S2gate", "Xgate", "Zgate", "Pgate", "CXgate", "CZgate") and i == 0 else p for i, p in enumerate(op[1])]
-    elif kind == "prep":
-        nm = draw(st.sampled_from(F_PREPS))
+    elif kind in ("prep", "prep_all"):
+        nm = draw(st.sampled_from(F_PREPS if kind == "prep" else ["KetN", "DMN"]))
+        kind = "prep"
         if nm in ("Ket1", "DM1"):
             m = draw(st.integers(0, n - 1))
             t1 = draw(ket_terms(1, D - 1))
@@ -214,18 +221,26 @@ def fock_case(draw):
         elif nm == "Ket2":
             modes = list(draw(st.permutations(list(range(n))))[:2])
             op = [nm, [draw(ket_terms(2, D - 1))], modes, {}]
+        elif nm in ("KetN", "DMN"):
+            # multi-mode ket / density matrix on ALL modes of the register, listed in any order (3-cycles for n = 3)
+            modes = list(draw(st.permutations(list(range(n)))))
+            op = [nm, [draw(ket_terms(n, pmax)), draw(ket_terms(n, pmax)) if nm == "DMN" else None, draw(gen.fl(0.2, 0.8))], modes, {}]
         else:
             op = draw(gen.op_spec(n, [nm], "fock"))
             if nm == "Fock":
                 op[1][0] = min(op[1][0], D - 1)
     elif kind == "measure":
-        k = draw(st.integers(1, n - 1))
+        k = draw(st.sampled_from([n - 1, n - 1, 1]))
         modes = list(draw(st.permutations(list(range(n))))[:k])
-        op = ["MeasureFock", [], modes, {"select_list": [draw(st.integers(0, 2)) for _ in modes]}]
+        if k == 2 and draw(st.booleans()):
+            modes = sorted(modes, reverse=True)
+        # post-selected, or sampled (select_list None): the outcome the run reports is then the one the rest is conditioned on
+        op = ["MeasureFock", [], modes, {"select_list": [draw(st.integers(0, 2)) for _ in modes] if draw(st.booleans()) else None}]
     else:
         k = draw(st.integers(1, n - 1))
         op = ["Del", [], sorted(draw(st.permutations(list(range(n))))[:k]), {}]
-    return {"n": n, "cutoff": D, "rep": rep, "prior": prior, "prior2": prior2, "w": w, "kind": kind, "op": op}
+    return {"n": n, "cutoff": D, "rep": rep, "prior": prior, "prior2": prior2, "w": w, "kind": kind, "op": op,
+            "rng": draw(st.integers(0, 999)) if kind == "measure" else 11}
 
 
 def _prior_tensor(case):
@@ -246,15 +261,20 @@ def _product(rho_rest, rest, sigma, targets, n):
     return np.transpose(t, perm)
 
 
-def _run_fock(n, D, pure, build):
+def _run_fock(n, D, pure, build, rng=11):
     import strawberryfields as sf
 
     prog = sf.Program(n)
     with prog.context as q:
         build(q)
     eng = sf.Engine("fock", backend_options={"cutoff_dim": D, "pure": pure})
-    np.random.seed(11)
-    return eng.run(prog).state
+    np.random.seed(rng)
+    res = eng.run(prog)
+    _LAST["samples_dict"] = res.samples_dict
+    return res.state
+
+
+_LAST = {}
 
 
 def _apply_test_op(q, op, D):
@@ -270,8 +290,13 @@ def _apply_test_op(q, op, D):
         ops.DensityMatrix(w * np.outer(a, a.conj()) + (1 - w) * np.outer(b, b.conj())) | regs[0]
     elif name == "Ket2":
         ops.Ket(ket_from_terms(2, D, params[0])) | regs
+    elif name == "KetN":
+        ops.Ket(ket_from_terms(len(modes), D, params[0])) | regs
+    elif name == "DMN":
+        a, b, w = ket_from_terms(len(modes), D, params[0]), ket_from_terms(len(modes), D, params[1]), params[2]
+        ops.DensityMatrix(w * fockref.ket_to_dm(a) + (1 - w) * fockref.ket_to_dm(b)) | regs
     elif name == "MeasureFock":
-        ops.MeasureFock(select=list(flags["select_list"])) | regs
+        ops.MeasureFock(select=None if flags["select_list"] is None else list(flags["select_list"])) | regs
     elif name == "Del":
         ops.Del | regs
     else:
@@ -300,12 +325,17 @@ def check_fock(ctx, case):
         labels.append("target_not_first")
     if len(targets) == 2 and targets[0] > targets[1]:
         labels.append("descending_pair")
+    if len(targets) >= 3 and [targets[t] for t in targets] != list(range(len(targets))) and sorted(targets) == list(range(len(targets))):
+        labels.append("non_involutive_target_order")
     # non-trivial: prior not a product across the cut (purity of the spectator marginal of each pure component < 1)
     r_sp = fockref.reduce_dm(rho0, n, spect)
     r_t = fockref.reduce_dm(rho0, n, targets)
     prod = _product(r_sp, spect, r_t, targets, n)
     entangled = float(np.max(np.abs(prod - rho0))) > 1e-3
-    if kind == "measure":
+    sampled = kind == "measure" and op[3]["select_list"] is None
+    if sampled:
+        labels.append("measure_sampled")
+    if kind == "measure" and not sampled:
         sel = op[3]["select_list"]
         idx = []
         for m in range(n):
@@ -320,7 +350,7 @@ def check_fock(ctx, case):
             ctx.note(case, False, ["measure_prob_too_small"])
             return None
     try:
-        st1 = _run_fock(n, D, rep == "pure", build)
+        st1 = _run_fock(n, D, rep == "pure", build, case.get("rng", 11))
     except (NotApplicableError, NotImplementedError):
         ctx.note(case, False, ["rejected:fock"])
         return None
@@ -383,7 +413,33 @@ def check_fock(ctx, case):
             dc = float(np.max(np.abs(sig - fockref.ket_to_dm(psi))))
             if dc > 1e-9:
                 return ctx.fail("prep_state.fock.Ket2", "two-mode Ket preparation differs from its argument by %.3g" % dc)
+        if op[0] in ("KetN", "DMN"):
+            arg = fockref.ket_to_dm(ket_from_terms(k, D, op[1][0]))
+            if op[0] == "DMN":
+                arg = op[1][2] * arg + (1 - op[1][2]) * fockref.ket_to_dm(ket_from_terms(k, D, op[1][1]))
+            dc = float(np.max(np.abs(rho1 - _product(None, [], arg, targets, n))))
+            if dc > 1e-9:
+                return ctx.fail("prep_state.fock.%s" % op[0], "%d-mode preparation on modes %s: subsystem s of the argument is not in mode modes[s] (%.3g)" % (k, targets, dc))
         return None
+    if sampled:
+        # condition on the outcome the run reported for each measured mode
+        try:
+            sel = [int(np.ravel(_LAST["samples_dict"][m][-1])[0]) for m in targets]
+        except Exception as exc:  # pylint: disable=broad-except
+            return ctx.fail("measure_samples_missing.fock", "no reported outcome for measured modes %s: %r" % (targets, exc))
+        idx = []
+        for m in range(n):
+            if m in targets:
+                s = sel[targets.index(m)]
+                idx += [s, s]
+            else:
+                idx += [slice(None), slice(None)]
+        cond = rho0[tuple(idx)]
+        pr = fockref.trace(cond, len(spect)) if spect else float(np.real(cond))
+        if len(targets) >= 2 and targets != sorted(targets) and len(set(sel)) > 1:
+            ctx.label("measure_sampled_unsorted_unequal_outcomes")
+        if pr < 1e-9:
+            return ctx.fail("measure_impossible_outcome.fock", "MeasureFock on %s reported outcome %s which has probability %.3g in the prior" % (targets, sel, pr))
     if kind == "measure":
         k = len(targets)
         vac = np.zeros((D,) * (2 * k), complex)
@@ -454,7 +510,7 @@ def check_bng(ctx, case):
 SUBS = [
     Sub("ps_spectator", check=check_ps, strategy=lambda ctx: ps_case(), examples={"quick": 600, "thorough": 5000},
         shards={"quick": 2, "thorough": 16}, rule="gaussian/bosonic: entangling prior + one op on ordered targets"),
-    Sub("fock_spectator", check=check_fock, strategy=lambda ctx: fock_case(), examples={"quick": 120, "thorough": 1000},
+    Sub("fock_spectator", check=check_fock, strategy=lambda ctx: fock_case(), examples={"quick": 300, "thorough": 2000},
         shards={"quick": 3, "thorough": 16}, rule="fock pure/mixed: generated bounded-photon prior + one op; oracle computed from the JSON prior by fockref"),
     Sub("bosonic_nongauss", check=check_bng, strategy=lambda ctx: bng_case(), examples={"quick": 60, "thorough": 500},
         shards={"quick": 1, "thorough": 8}, rule="bosonic with cat/Fock spectators: per-weight spectator data unchanged"),
